@@ -216,6 +216,40 @@ def run(ctx, F, cg):
             else:
                 ctx.violation("R22c", "%s|write|%d" % (short, k), where(r, c.line), why)
     ctx.floor("R22c", "write_all calls in the connection loop", nw, 3)
+    # ---- R22d: one value per buffer ---------------------------------------------------------------------------------
+    ctx.rule("R22d", "a reply buffer holds exactly one encoded value when it is written: between two RespValue::encode calls into the same buffer there is always a reset of that buffer (a fresh Vec or clear()) — a buffer reused across loop iterations and not cleared on one path sends the previous reply again in front of the new one")
+    n_enc = 0
+    for r in sorted(hcs, key=lambda x: x["path"]):
+        hb = Body(F.mir(r["path"]), r)
+        encs = [c for c in hb.calls_to(["RespValue::encode"]) if len(c.args) > 1 and c.args[1][0] != "k"]
+        by_buf = {}
+        for c in encs:
+            for bl in _base_locals(hb, c.args[1][1][0]):
+                by_buf.setdefault(bl, []).append(c)
+        short = "handle_connection" if r["path"].startswith("samyama::protocol::server::handle_connection::") else r["path"].replace("samyama::protocol::", "")
+        for bl, cs in sorted(by_buf.items()):
+            if hb.local_ty(bl).strip() not in ("std::vec::Vec<u8>", "bytes::BytesMut"):
+                continue
+            # reset points of this buffer: (re)definitions of the local and clear()/truncate(0) calls on it
+            resets = set()
+            for d in hb.defs().get(bl, []):
+                resets.add(d[1])
+            for c in hb.calls():
+                if c.path.rsplit("::", 1)[-1] in ("clear",) and c.args and c.args[0][0] != "k" and bl in _base_locals(hb, c.args[0][1][0]):
+                    resets.add(c.bb)
+            for c in cs:
+                n_enc += 1
+                inst = "%s|encode-into|%s|%d" % (short, hb.local_name(bl) or ("_%d" % bl), cs.index(c))
+                if c.target is None:
+                    continue
+                after = hb.reachable(c.target, avoid=resets)
+                clash = [c2 for c2 in cs if c2.bb in after]
+                if clash:
+                    ctx.violation("R22d", inst + "|second-encode-without-reset", where(r, clash[0].line),
+                                  "after encoding a reply into `%s` the connection loop can encode another one into it (line %d) without clearing it first: the client receives the earlier reply again, followed by the new frame, as the answer to one request" % (hb.local_name(bl) or "the buffer", clash[0].line))
+                else:
+                    ctx.ok("R22d", inst, "every later encode into this buffer is behind a reset")
+    ctx.floor("R22d", "encode calls into reply buffers", n_enc, 2)
     return ("Decided: in the encoder, string data reaches a CRLF-terminated frame only through a function that replaces both CR and LF "
             "(constants, transforming call and the pass-through guard are checked on MIR); numeric and length-prefixed variants cannot "
             "split a frame. This is sufficient for the one-frame clause given that all replies are written through RespValue::encode "
